@@ -127,6 +127,9 @@ def call_name(I, n, name, args, kwargs):
             return Lit(abs(v.v))
         return v
     if name == 'int':
+        if isinstance(args[0], Num):
+            I.sink(n, 'display-truncation', False, 'int() truncates a measured amount (50.6 becomes 50): a stated amount '
+                                                    'must be rounded, not cut off')
         return args[0] if is_num(args[0]) else Other('int')
     if name in ('deepcopy', 'copy'):
         v = args[0]
